@@ -31,6 +31,24 @@ def classify_rt(text, again, values):
   return None
 
 
+_DOTTED_SCOPE_KEY = None
+
+
+def classify_parse_failure(text, message):
+  """A config string that does not parse because a scope component of a binding key contains a period (config_scope('a.b') and
+  bind_parameter('a.b/f.x', ..) accept it, the config language does not): recorded finding of C06 and C07."""
+  global _DOTTED_SCOPE_KEY
+  import re
+  if _DOTTED_SCOPE_KEY is None:
+    _DOTTED_SCOPE_KEY = re.compile(r'^\s*(?:[A-Za-z_]\w*/)*[A-Za-z_]\w*(?:\.[A-Za-z_]\w*)+/[^=\n]*=', re.M)
+  if 'Malformatted scope or selector' in message and _DOTTED_SCOPE_KEY.search(text):
+    return 'dotted-scope-component-printed-but-not-parseable'
+  if '.<locals>.' in text and 'dynamic_registration' in text:
+    # under dynamic registration a configurable registered from Python that is a local function / class is printed by module and __qualname__
+    return 'local-object-printed-by-qualname-under-dynamic-registration'
+  return None
+
+
 def merge(ctx, rep, prefix):
   for k, v in rep.get('counters', {}).items():
     ctx.count('%s:%s' % (prefix, k), v)
@@ -77,6 +95,7 @@ def foreign_workload(ctx, which, mods, n, rt_classify=False):
   m = online.Online(which)
   if rt_classify:
     m.rt_classifier = classify_rt
+  m.parse_failure_classifier = classify_parse_failure
   rng = random.Random(ctx.seed * 7919 + ctx.widx)
   if 'clear' in which:
     gin.clear_config(clear_constants=True)
